@@ -87,6 +87,7 @@ type v1run struct {
 	expect   map[int]int
 	stop     chan struct{}
 	exited   atomic.Bool
+	rounds   atomic.Int64
 
 	stopReq, cancelReq, graceReq       bool
 	stopRet, graceRet                  atomic.Bool
@@ -125,6 +126,9 @@ func (r *v1run) hook(ev v1.VerifEvent) {
 	}
 	if ev.Ev == "Exit" {
 		r.exited.Store(true)
+	}
+	if ev.Ev == "RoundEnd" {
+		r.rounds.Add(1)
 	}
 	if r.free.Load() {
 		return
@@ -217,14 +221,15 @@ func (r *v1run) next() (v1.VerifEvent, bool) {
 }
 
 func (r *v1run) await() (v1.VerifEvent, bool) {
-	for try := 0; try < 6; try++ {
+	for d := 2 * time.Nanosecond; d <= 64*time.Microsecond; d *= 2 { // idle delay / interrupt period may lie between two hooks
 		synctest.Wait()
 		if ev, ok := r.poll(); ok {
 			return ev, true
 		}
-		time.Sleep(2 * time.Nanosecond)
+		time.Sleep(d)
 	}
-	return v1.VerifEvent{}, false
+	synctest.Wait()
+	return r.poll()
 }
 
 // poll logs a scheduler event that is waiting to be delivered (the scheduler reached its next hook)
@@ -468,12 +473,12 @@ func (r *v1run) heldCounts() [][2]int {
 
 // waitFor polls cond under the virtual clock; the discipline gets rounds*3 ns of virtual time.
 func (r *v1run) waitFor(rounds int, cond func() bool) bool {
-	for i := 0; i < rounds; i++ {
+	for i := 0; i < rounds/4+2; i++ { // every step lets the scheduler complete at least two rounds (or finds it blocked)
 		r.observe()
 		if cond() {
 			return true
 		}
-		time.Sleep(3 * time.Nanosecond)
+		idleWait(&r.rounds)
 	}
 	return cond()
 }
@@ -772,7 +777,7 @@ func (r *v1run) aloneScenario() bool {
 		note = "fatal-config" // some priority of some sub-list gets nothing from the divider (v1 accepts such configurations: F4)
 	}
 	r.emit(obs{E: "A", P: p, C: uint(c), Note: note})
-	for idle := 0; idle < 10 && len(r.held) <= 3*int(r.cfg.H)+8; {
+	for idle := 0; idle < 3 && len(r.held) <= 3*int(r.cfg.H)+8; {
 		progressed := false
 		for len(r.ch[c]) < cap(r.ch[c]) {
 			r.nextItem[c]++
@@ -789,7 +794,7 @@ func (r *v1run) aloneScenario() bool {
 			idle = 0
 		} else {
 			idle++
-			time.Sleep(3 * time.Nanosecond)
+			idleWait(&r.rounds)
 		}
 	}
 	qnote := ""
@@ -809,7 +814,7 @@ func (r *v1run) aloneScenario() bool {
 // release nothing until the discipline stops handing out items; then the graceful end game follows. Always returns false.
 func (r *v1run) stallScenario() bool {
 	r.waitFor(100, func() bool { return r.addRmPending() == 0 })
-	for idle := 0; idle < 10 && len(r.held) <= 3*int(r.cfg.H)+8; {
+	for idle := 0; idle < 3 && len(r.held) <= 3*int(r.cfg.H)+8; {
 		progressed := false
 		for _, p := range r.cfg.Prios {
 			c, ok := r.reg[p]
@@ -832,7 +837,7 @@ func (r *v1run) stallScenario() bool {
 			idle = 0
 		} else {
 			idle++
-			time.Sleep(3 * time.Nanosecond)
+			idleWait(&r.rounds)
 		}
 	}
 	r.emit(obs{E: "Q", Held: r.heldCounts()})
